@@ -715,7 +715,7 @@ def _run(ctx, res):
              (("a", "b"), ("\U0001f4e1", "\u20ac\u20ac")),
              # only the ASCII space is excluded from a device name: other white space is part of it
              (("dev0", "key0"), ("\u4f1a\u8b70\u5ba4\u3000A", "k\u00a0ey")), (("Salle\u00a0B", "k\tk"), ("dev\u20031", "key\x0b1"))]
-    for n in (50, 700, 3000, 20000) + (() if ctx.quick else (80000, 400000)):
+    for n in (50, 700, 3000, 20000, 300000) + (() if ctx.quick else (80000, 400000)):
         for send_max, names, kind in [(64, None, "updated"), (512, None, "halted"), (1460, None, "completed")] + \
                 [(1460, nm, "updated") for nm in NAMES[1:]] + [(64, NAMES[1], "halted"), (512, None, "updated"), (64, None, "completed")]:
             r = S.sender_probe(n, send_max=send_max, names=names, kind=kind)
